@@ -1,4 +1,6 @@
 """C03 -- GTF import infers exact gene/transcript extents and the three-level hierarchy (E1)."""
+import os
+
 import gffutils
 
 from gv.model import dbutil
@@ -24,7 +26,7 @@ ASSUMPTIONS = [
     "explicit gene/transcript lines differ from the derived feature in some column (source), so no attribute merge is expected",
 ]
 
-EXON_OPTS_Q = ((), ((1, 2),), ((1, 2), (5, 6)), ((1, 6), (3, 3)), ((5, 6), (1, 2)), ((2, 4), (3, 3), (5, 6)))
+EXON_OPTS_Q = ((), ((1, 2),), ((1, 2), (5, 6)), ((1, 6), (3, 3)), ((5, 6), (1, 2)), ((2, 4), (3, 3), (5, 6)), ((0, 2), (5, 6)))    # last: starts at 0
 EXON_OPTS_T = EXON_OPTS_Q + (((2, 4), (3, 5)), ((4, 4),))
 EXTRA_Q = (None, ("CDS", 1, 9))
 EXTRA_T = (None, ("CDS", 1, 9), ("start_codon", 2, 3))
@@ -134,7 +136,7 @@ def body(ch, ctx):
                 ex = exon_opts[e0]
                 first = False
             else:
-                ex = ch.choose("exons_%s" % tid, exon_opts)
+                ex = ch.choose("exons_%s" % tid, exon_opts[:6] if q else exon_opts)     # quick: the start-0 set only as the first transcript
             extra = ch.choose("extra_%s" % tid, extras)
             toff = off + 10 * ti
             exs = []
@@ -259,3 +261,59 @@ def body(ch, ctx):
                 if not ok:
                     ctx.fail("%s-differ" % which, dict(sig, level=level), file=texts, id=x, got=sorted(res), expected=sorted(e),
                              optional=sorted(s))
+    # ---- a later update() bringing a brand-new gene (identity order only, to keep the product affordable): the same derivation
+    # rules apply to it, and nothing stored before changes
+    if order != "identity" or keys != "default":
+        return          # (update() takes the importer's own option names for custom keys, not create_db's: not part of this statement)
+    before = {f.id: str(f) for f in db.all_features()}
+    new_lines = []
+    if explicit in ("gene", "both"):
+        new_lines.append(("gene", 300, 332, None))
+    if explicit in ("transcript", "both"):
+        new_lines.append(("transcript", 300, 331, "g9t1"))
+    new_lines += [(sub, 300, 310, "g9t1"), (sub, 320, 330, "g9t1"), ("CDS", 305, 325, "g9t1")]
+    ntexts = []
+    for ft, a, b, t in new_lines:
+        attrs = '%s "g9";' % gk + (' %s "%s";' % (tk, t) if t else "")
+        ntexts.append("\t".join(["c9", "s", ft, str(a), str(b), ".", "+", ".", attrs]))
+    upath = dbutil.write_text(os.path.dirname(path), "later.gtf", "\n".join(ntexts) + "\n")
+    usig = dict(sig, after_update=True)
+    try:
+        db.update(upath, make_backup=False, **kw)
+    except Exception as e:
+        ctx.fail("update-raised", dict(usig, exc=type(e).__name__), file=texts, update=ntexts, message=str(e)[:200])
+        return
+    after = {f.id: str(f) for f in db.all_features()}
+    ctx.check(all(after.get(k_) == v for k_, v in before.items()), "update-changed-earlier-features", usig, file=texts, update=ntexts,
+              changed=sorted(k_ for k_, v in before.items() if after.get(k_) != v)[:5])
+    want = {}
+    if explicit in ("transcript", "both"):
+        want["g9t1"] = ("transcript", 300, 331)
+    elif not dis_t:
+        want["g9t1"] = ("transcript", 300, 330)
+    if explicit in ("gene", "both"):
+        want["g9"] = ("gene", 300, 332)
+    elif not dis_g:
+        want["g9"] = ("gene", 300, 330)
+    new = {k_: v for k_, v in after.items() if k_ not in before}
+    for k_, (ft, a, b) in want.items():
+        try:
+            f = db[k_]
+            ctx.check((f.featuretype, f.start, f.end, f.seqid, f.strand) == (ft, a, b, "c9", "+"), "feature-columns-differ",
+                      dict(usig, derived=True, explicit_line=False), file=texts, update=ntexts, id=k_, got=str(f))
+        except gffutils.FeatureNotFoundError:
+            ctx.fail("expected-feature-missing", dict(usig, derived=True), file=texts, update=ntexts, missing=[k_])
+    n_expected = len(new_lines) + sum(1 for k_ in want if not any(l[0] == want[k_][0] for l in new_lines))
+    ctx.check(len(new) == n_expected, "unexpected-feature" if len(new) > n_expected else "expected-feature-missing", usig, file=texts,
+              update=ntexts, new=sorted(new), expected_count=n_expected)
+    if "g9t1" in want:
+        kids = sorted(f.featuretype for f in db.children("g9t1", level=1))
+        ctx.check(kids == sorted([sub, sub, "CDS"]), "children-differ", dict(usig, level=1), file=texts, update=ntexts, id="g9t1", got=kids)
+    if "g9" in want:
+        # (an explicit transcript line may or may not also be listed at level 2 under its gene: accepted either way, see ASSUMPTIONS)
+        kids2 = sorted(f.featuretype for f in db.children("g9", level=2) if f.featuretype != "transcript")
+        ctx.check(kids2 == sorted([sub, sub, "CDS"]), "children-differ", dict(usig, level=2), file=texts, update=ntexts, id="g9", got=kids2)
+        if "g9t1" in want:
+            k1 = [f.id for f in db.children("g9", level=1)]
+            ctx.check(k1 == ["g9t1"], "children-differ", dict(usig, level=1), file=texts, update=ntexts, id="g9", got=k1)
+
